@@ -49,6 +49,15 @@ def check(ctx):
                           {'returned': T.pretty(s.ret)[:300],
                            'abstract_counterexample': 'float, 20 dimensions, 128 bins: prod(bins) = 128^20 overflows'})
             return
+        if wu is None and len(prods) == 1 and T.occurs(s.ret, prods[0]['final']) and \
+                any(isinstance(t, tuple) and t and t[0] == 'fn' and t[1] in ('pow', 'exp', 'ldexp', 'scalbn')
+                    for t in T.subterms(s.ret)):
+            ctx.violation('R1.weight_product', where, 'the returned weight is a running product that is rescaled by a '
+                          'power afterwards (cell volume x bins^dimensions) instead of the running product of the '
+                          'per-dimension jacobian factor (R - L)*bins: both factors under- / overflow in many dimensions '
+                          'although the weight itself is of order one', {'returned': T.pretty(s.ret)[:300],
+                          'abstract_counterexample': 'float, 19 dimensions, 128 bins: 128^19 = 2^133 overflows'})
+            return
         if wu is None or xu is None or xu['kind'] != 'map':
             raise AnalysisBroken('weight product / coordinate map of vegas_icdf not recognised')
         if wu['init'] != ONE:
@@ -213,6 +222,8 @@ def check(ctx):
     share(ctx, 'C04', 'R6/C04.', ['R8.', 'R5.'])
     # the estimate averages over ALL calls: the counts handed to the result are the roles the result expects
     share(ctx, 'C02', 'R8/C02.', ['R5.'])
+    # under MPI the sum of the shares is the number of calls the total is divided by (shared with C16)
+    share(ctx, 'C16', 'R9/C16.', ['R1.', 'R2.'])
 
     # ---------------------------------------------------------------- R4 PLAIN weight is one
     for f3 in instances(p, 'hep::plain_iteration'):
